@@ -62,11 +62,11 @@ def design(ctx, names):
 def gen_cases(ctx, names, parts=None, nrandom=None):
     """(b) TLC enumerates the plan families and random nested plans."""
     if parts is None:
-        parts = ["matrix012", "values2", "mutate", "forms"]
+        parts = ["matrix012", "values2", "values1", "refs", "computed", "eqcont", "mutate", "forms"]
         if not ctx.quick:
-            parts += ["matrix012b", "values1", "matrix3", "matrix4", "values3"]
+            parts += ["matrix012b", "matrix3", "matrix4", "values3"]
     if nrandom is None:
-        nrandom = 1500 if ctx.quick else 20000
+        nrandom = 1000 if ctx.quick else 20000
     cases, seen, roots = [], set(), None
     per = {}
 
@@ -107,6 +107,7 @@ def gen_cases(ctx, names, parts=None, nrandom=None):
         raise Infra("generator did not print the roots table")
     for k, c in enumerate(cases):
         c["id"] = k + 1
+        c["root2"] = roots[c["root"] + "b"]
         c["root"] = roots[c["root"]]
     ctx.cov["generated_cases"] = per
     log("generated cases:", per)
@@ -163,6 +164,8 @@ def locus_str(b):
         return "Deterministic/%s/%s" % (loc[0], loc[1])
     if b["kind"] == "print-rebuild":
         return "PrintRebuild/%s/%s/%s" % (loc[0], loc[1], loc[2])
+    if b["kind"] == "plan-changed":
+        return "PlanUnchanged/%s/%s" % (loc[0], fn)
     if b["kind"] == "frame":
         return "SrcFrame/%s" % where
     return "/".join(str(x) for x in loc)
@@ -207,20 +210,24 @@ def judge_once(ctx, cases):
         return [{"api": "asm.Plan.Execute", "kind": "hang", "locus": "hang/" + node_text(hang.get("plan", {}))[:60],
                  "witness": node_text(hang.get("plan", {})), "case": hang, "depth": 0, "plan": hang.get("plan", {})}], 0
     res = ctx.validate("TraceAsm", tp, cfg=TRACE_CFG, chunk=2500 if ctx.quick else 6000, timeout=1500)
-    ctx.cov["evaluations"] += res["n"] * 9
+    ctx.cov["evaluations"] += res["n"] * 11
     cells = getattr(ctx, "_cells", set())
     cells.update(res["hits"].keys())
     ctx._cells = cells
     recs = []
     lines = None
+    idmap = {c.get("id"): c.get("root2") for c in cases}
     for b in res["bad"]:
         if lines is None:
             lines = open(tp, "rb").readlines()
         ev = json.loads(lines[b["i"] - 1])
         case = {"plan": ev["plan"], "root": ev["root"], "bare": ev.get("bare", False)}
+        if idmap.get(ev["id"]) is not None:
+            case["root2"] = idmap[ev["id"]]
         detail = {"text": ev.get("text"), "root": root_name(ev["root"]), "runs": [("=run1" if r.get("eq") else r.get("r", "?") + (":" + r["m"] if r.get("m") else "")) for r in ev["runs"]],
                   "str": "=run1" if ev["str"].get("eq") else ev["str"].get("r"), "simp": "=run1" if ev["simp"].get("eq") else ev["simp"].get("r"),
-                  "str_m": ev["str"].get("m")}
+                  "str_m": ev["str"].get("m"), "text_before": ev.get("text0"), "text_after": ev.get("text1"),
+                  "second_root": [ev["alt_same"].get("r"), "=same-object" if ev["alt_fresh"].get("eq") else ev["alt_fresh"].get("r")]}
         recs.append({"api": "asm.Plan.Execute", "kind": b["kind"], "locus": locus_str(b), "witness": node_text(ev["plan"]),
                      "case": case, "detail": detail, "depth": b["depth"], "plan": ev["plan"]})
     return recs, res["n"]
@@ -235,7 +242,7 @@ def judge(ctx, cases, shrink=True):
     recs, _ = judge_once(ctx, cases)
     if not shrink:
         return recs
-    deep_all = [r for r in recs if r["depth"] > 1 and r["kind"] in ("wrong-value", "nondeterministic", "print-rebuild", "frame", "panic")]
+    deep_all = [r for r in recs if r["depth"] > 1 and r["kind"] in ("wrong-value", "nondeterministic", "print-rebuild", "frame", "panic", "plan-changed")]
     if not deep_all:
         return recs
     # per (kind, locus) group the 8 smallest nested witnesses are shrunk; if all of them reduce to a sub-call the rest of
@@ -255,7 +262,7 @@ def judge(ctx, cases, shrink=True):
                 key = json.dumps([plan, r["case"]["root"]], sort_keys=True)
                 if key not in seen:
                     seen[key] = len(subs)
-                    subs.append({"plan": plan, "root": r["case"]["root"], "bare": False, "src": "shrink"})
+                    subs.append({"plan": plan, "root": r["case"]["root"], "root2": r["case"].get("root2"), "bare": False, "src": "shrink"})
                 owner.append((ri, seen[key]))
     if not subs:
         return recs
